@@ -27,7 +27,10 @@ EXPLANATION = (
     'SimulationFailure is an EvolutionException and handle converts '
     'EvolutionException to CommandError; R-C12.7 no handler for an evolution '
     'error or a broad exception class in any function reachable from the '
-    'command can continue normally (CannotSimulate excepted, by design).')
+    'command can continue normally (CannotSimulate excepted, by design); '
+    'R-C12.8 the optimiser that runs before the simulation only registers '
+    'ChangeField mutations as absorbable and invalidates consumed entries, so '
+    'it cannot fold away a duplicate AddField before it is rejected.')
 NOT_DECIDED = (
     'That every perturbed evolution is in fact rejected (quantifies over '
     'evolutions and needs the diff/simulate semantics executed).')
@@ -594,7 +597,16 @@ def r7_no_swallowed_rejection(ctx, handle, gate_nodes):
               n, 6)
 
 
+def r8_optimiser_keeps_invalid_mutations(ctx):
+    """The gate simulates the *optimised* sequence: the optimiser must not
+    fold away a mutation whose simulation would fail (a duplicate AddField).
+    Same clause as R-C03.6."""
+    from .c03 import r6_consumed_entries_invalidated
+    r6_consumed_entries_invalidated(ctx, rule_id='R-C12.8')
+
+
 def run(ctx):
+    r8_optimiser_keeps_invalid_mutations(ctx)
     handle, gate_nodes = r1_gate_dominates(ctx)
     r2_gate_fails_closed(ctx)
     if handle is not None:
